@@ -39,7 +39,7 @@ def _case(draw, tier):
     if src.startswith("mpas"):
         mesh = draw(meshgen.voronoi_mesh(6, 26 if big else 14))
     else:
-        mesh = draw(meshgen.any_mesh(max_pts=30 if big else 14, tiny=True))
+        mesh = draw(meshgen.any_mesh(max_pts=30 if big else 14, tiny=True, orphans=True))
     c = {
         "mesh": mesh,
         "src": src,
